@@ -349,7 +349,7 @@ def reference_frame(kind, norb, nelec, params):
 def walker(draw, norb, nelec, restricted=False, frame=None):
     """Complex, non-orthonormal walker. Variants: generic / near the trial's reference determinant / column-scaled."""
     na, nb = nelec
-    variant = draw(st.sampled_from(["generic", "near-ref", "near-ref", "scaled"]))
+    variant = draw(st.sampled_from(["generic", "near-ref", "near-ref", "scaled", "near-ref-zero-row"]))
     up = draw(cplx((norb, na)))
     dn = up[:, :nb].copy() if restricted else draw(cplx((norb, nb)))
     Ru, Rd = frame if frame is not None else (np.eye(norb, na), np.eye(norb, nb))
@@ -364,6 +364,19 @@ def walker(draw, norb, nelec, restricted=False, frame=None):
         # still dominated by the drawn noise, but never exactly rank deficient when the draw shrinks to zero
         up = up + 0.3 * Ru
         dn = dn + 0.3 * Rd
+    if variant == "near-ref-zero-row":
+        # an orbital that the reference leaves empty in both spin channels gets an *exactly* zero row: the corresponding column of every
+        # half Green's function vanishes identically and excitation blocks through it are exactly singular (where jnp.linalg.det's
+        # derivative rule silently returns 0 - the defect repaired in 59024d9)
+        free = [r for r in range(norb) if not np.any(Ru[r]) and not np.any(Rd[r])]
+        if free:
+            r = free[draw(st.integers(0, len(free) - 1))]
+            up = up.copy()
+            dn = dn.copy()
+            up[r, :] = 0.0
+            dn[r, :] = 0.0
+        else:
+            variant = "near-ref"
     if variant == "scaled":
         su = np.array([10.0 ** draw(st.integers(-2, 2)) for _ in range(na)])
         up = up * su[None, :]
